@@ -237,7 +237,219 @@ func genGraph(r *core.Rand) core.Case {
 	return core.Case{Lines: lines, Tag: tag}
 }
 
+/* ---------- large stream: sizes beyond every brute-force oracle ----------
+
+Item lists of 17..200 (Knapsack) / 17..60 (FindDpSolvers) items and graphs on 33..120
+vertices; the independent oracle for these sizes is not brute force but an own dynamic
+programme / subset-sum table / Bron–Kerbosch with pivoting (check.go, "large" section).
+Thresholds crossed: 16/17 items in one table cell, 32/33 and 64/65 candidates, > 62 vertices
+(no machine-word bit masks anywhere on the path). */
+
+func genLargeKnap(r *core.Rand) core.Case {
+	n := r.Range(17, 40)
+	if r.Chance(12) {
+		n = r.Range(41, 200)
+	}
+	if r.Chance(20) {
+		n = []int{17, 18, 19, 31, 32, 33, 34, 63, 64, 65, 66}[r.Intn(11)]
+	}
+	mode := r.Pick(40, 25, 20, 15)
+	var sb strings.Builder
+	sb.WriteString("@ C18 dp")
+	sumW := 0
+	for i := 0; i < n; i++ {
+		w, v := 1, 1
+		switch mode {
+		case 0: // unit weights: cell i holds up to i items
+			v = r.Range(1, 3)
+			if r.Chance(50) {
+				v = 1
+			}
+		case 1: // small weights incl. zero
+			w, v = r.Range(0, 3), r.Range(1, 5)
+		case 2: // weights 1..2, all values equal: very many ties
+			w, v = r.Range(1, 2), 2
+		default: // a few heavy items among unit ones
+			if r.Chance(15) {
+				w, v = r.Range(5, 30), r.Range(5, 40)
+			}
+		}
+		sumW += w
+		fmt.Fprintf(&sb, " %d %d", w, v)
+	}
+	lines := []string{sb.String()}
+	for i, ops := 0, r.Range(1, 2); i < ops; i++ {
+		var W int
+		switch r.Pick(35, 25, 20, 20) {
+		case 0:
+			W = n + r.Range(-2, 4)
+		case 1:
+			W = sumW + r.Range(-3, 1)
+		case 2:
+			W = r.Range(16, 40)
+		default:
+			W = r.Range(0, sumW+2)
+		}
+		if W < 0 {
+			W = 0
+		}
+		if W > 260 {
+			W = 260
+		}
+		lines = append(lines, fmt.Sprintf("knap %d %s", W, genBrk(r)))
+	}
+	return core.Case{Lines: lines, Tag: "large"}
+}
+
+func genLargeSolv(r *core.Rand) core.Case {
+	n := r.Range(17, 36)
+	if r.Chance(20) {
+		n = r.Range(37, 60)
+	}
+	vHi := r.Range(1, 4)
+	var sb strings.Builder
+	sb.WriteString("@ C18 dp")
+	sum := 0
+	for i := 0; i < n; i++ {
+		v := r.Range(1, vHi)
+		if r.Chance(5) {
+			v = r.Range(7, 19)
+		}
+		sum += v
+		fmt.Fprintf(&sb, " %d %d", r.Range(0, 3), v)
+	}
+	lines := []string{sb.String()}
+	for i, ops := 0, r.Range(1, 2); i < ops; i++ {
+		var max int
+		switch r.Pick(40, 30, 30) {
+		case 0:
+			max = r.Range(16, 40)
+		case 1:
+			max = sum + r.Range(-3, 2)
+		default:
+			max = r.Range(0, sum)
+		}
+		if max < 0 {
+			max = 0
+		}
+		if max > 120 {
+			max = 120 - r.Intn(5)
+		}
+		lines = append(lines, fmt.Sprintf("solv %d %d %s %d", max, r.Intn(2), genBrk(r), r.Intn(100000)))
+	}
+	return core.Case{Lines: lines, Tag: "large"}
+}
+
+func genLargeGraph(r *core.Rand) core.Case {
+	n := r.Range(33, 70)
+	if r.Chance(25) {
+		n = r.Range(71, 120)
+	}
+	if r.Chance(20) {
+		n = []int{33, 34, 63, 64, 65, 66}[r.Intn(6)]
+	}
+	type pair struct{ a, b int }
+	seen := map[pair]bool{}
+	var sb strings.Builder
+	fmt.Fprintf(&sb, "@ C18 graph %d", n)
+	edge := func(a, b int) {
+		if a == b {
+			return
+		}
+		if a > b {
+			a, b = b, a
+		}
+		if seen[pair{a, b}] {
+			return
+		}
+		seen[pair{a, b}] = true
+		if r.Bool() {
+			a, b = b, a
+		}
+		fmt.Fprintf(&sb, " %d-%d", a, b)
+	}
+	// vertex labels are shuffled so that structure and numbering are unrelated
+	lab := make([]int, n)
+	for i := range lab {
+		lab[i] = i
+	}
+	shuffle(r, lab)
+	switch r.Pick(15, 15, 30, 25, 15) {
+	case 0: // path
+		for i := 0; i+1 < n; i++ {
+			edge(lab[i], lab[i+1])
+		}
+	case 1: // cycle (+ a few chords)
+		for i := 0; i < n; i++ {
+			edge(lab[i], lab[(i+1)%n])
+		}
+		for k := r.Intn(4); k > 0; k-- {
+			edge(r.Intn(n), r.Intn(n))
+		}
+	case 2: // sparse random, average degree 1..4
+		m := n * r.Range(1, 4) / 2
+		for k := 0; k < m; k++ {
+			edge(r.Intn(n), r.Intn(n))
+		}
+	case 3: // union of small cliques (+ a few bridges), some isolated vertices left over
+		i := 0
+		for i < n {
+			sz := r.Range(1, 7)
+			if i+sz > n {
+				sz = n - i
+			}
+			for a := i; a < i+sz; a++ {
+				for b := a + 1; b < i+sz; b++ {
+					edge(lab[a], lab[b])
+				}
+			}
+			i += sz
+		}
+		for k := r.Intn(6); k > 0; k-- {
+			edge(r.Intn(n), r.Intn(n))
+		}
+	default: // a hub adjacent to many vertices + a sparse rest
+		hub := r.Intn(n)
+		for v := 0; v < n; v++ {
+			if r.Chance(80) {
+				edge(hub, v)
+			}
+		}
+		for k := r.Intn(n / 2); k > 0; k-- {
+			edge(r.Intn(n), r.Intn(n))
+		}
+	}
+	lines := []string{sb.String()}
+	for i, ops := 0, r.Range(1, 2); i < ops; i++ {
+		if r.Chance(40) {
+			lines = append(lines, "cliques")
+		} else {
+			ps := make([]int, n)
+			for k := range ps {
+				ps[k] = k
+			}
+			shuffle(r, ps)
+			lines = append(lines, "bk "+joinInts(ps))
+		}
+	}
+	return core.Case{Lines: lines, Tag: "large"}
+}
+
+func genLarge(r *core.Rand) core.Case {
+	switch r.Pick(40, 25, 35) {
+	case 0:
+		return genLargeKnap(r)
+	case 1:
+		return genLargeSolv(r)
+	}
+	return genLargeGraph(r)
+}
+
 func gen(r *core.Rand, tier string) core.Case {
+	// light share in quick (≈ 450 of 30000 cases), heavier in thorough / on anchor drift
+	if (tier == "thorough" && r.Chance(6)) || (tier != "thorough" && r.Chance(15) && r.Chance(10)) {
+		return genLarge(r)
+	}
 	switch r.Pick(62, 8, 30) {
 	case 0:
 		return genDp(r)
@@ -245,6 +457,37 @@ func gen(r *core.Rand, tier string) core.Case {
 		return genMap(r)
 	}
 	return genGraph(r)
+}
+
+func largePathCase(n int, cycle bool) core.Case {
+	var sb strings.Builder
+	fmt.Fprintf(&sb, "@ C18 graph %d", n)
+	for i := 0; i+1 < n; i++ {
+		fmt.Fprintf(&sb, " %d-%d", i, i+1)
+	}
+	if cycle {
+		fmt.Fprintf(&sb, " %d-0", n-1)
+	}
+	ps := make([]int, n)
+	qs := make([]int, n)
+	for k := range ps {
+		ps[k] = k
+		qs[k] = (k*7 + 3) % n // 7 is coprime to 33 and 40
+	}
+	return core.Case{Tag: "large", Lines: []string{sb.String(), "cliques", "bk " + joinInts(ps), "bk " + joinInts(qs)}}
+}
+
+func largeTrianglesCase(n int) core.Case {
+	var sb strings.Builder
+	fmt.Fprintf(&sb, "@ C18 graph %d", n)
+	for i := 0; i+2 < n-4; i += 3 {
+		fmt.Fprintf(&sb, " %d-%d %d-%d %d-%d", i, i+1, i+1, i+2, i, i+2)
+	}
+	ps := make([]int, n)
+	for k := range ps {
+		ps[k] = n - 1 - k
+	}
+	return core.Case{Tag: "large", Lines: []string{sb.String(), "cliques", "bk " + joinInts(ps)}}
 }
 
 func corpus() []core.Case {
@@ -285,6 +528,13 @@ func corpus() []core.Case {
 		{Lines: []string{"@ C18 dp 0 1 0 2 1 5 0 1", "knap 0 nil", "knap 0 t", "knap 0 f", "knap 1 lex", "knap 1 nil", "solv 0 0 nil 1", "solv 0 1 nil 2", "solv 0 1 t 3"}},
 		{Lines: []string{"@ C18 dp 2 2 0 3 2 2 0 1", "knap 2 nil", "knap 3 h5", "knap 4 le", "knap 1 f"}},
 		{Lines: []string{"@ C18 dp", "knap 0 f", "knap 14 nil", "solv 0 1 nil 3", "solv 0 0 f 4", "solv 9 1 lex 5"}},
+		// large: 18 / 33 unit-weight items with limits around the item count (a cell that is not
+		// the last one holds ≥ 17 items), 20 two-valued items for the solvers, a path and a cycle
+		// on 33 / 40 vertices, 12 triangles + 4 isolated vertices on 40 vertices
+		{Tag: "large", Lines: []string{"@ C18 dp" + strings.Repeat(" 1 1", 18), "knap 18 nil", "knap 21 nil", "knap 17 t", "knap 19 h3"}},
+		{Tag: "large", Lines: []string{"@ C18 dp" + strings.Repeat(" 1 2 1 1 0 1", 11), "knap 33 nil", "knap 36 lt", "knap 20 f"}},
+		{Tag: "large", Lines: []string{"@ C18 dp" + strings.Repeat(" 0 1 0 2", 10), "solv 17 0 nil 1", "solv 17 1 t 2", "solv 29 1 nil 3", "solv 30 1 h5 4", "solv 31 1 lt 5"}},
+		largePathCase(33, false), largePathCase(40, true), largeTrianglesCase(40),
 		// minimised witnesses of mutants killed during development (aliasing of a table cell
 		// with tmp; a recycled slice still referenced by a cell; X passed on unintersected)
 		{Lines: []string{"@ C18 dp 3 5 2 4 4 4 3 3", "knap 9 le"}},
